@@ -170,7 +170,7 @@ fn gen_stage(src: &mut Src, ty: Ty, cap_bytes: usize, allow_diamond: bool) -> (S
                 let b = gen_branch(src, ty, cap_bytes);
                 (Stage::DiamondF2C(a, b), Ty::C32)
             }
-            11 => (Stage::BurstRoundTrip(*src.pick(&[1.0f32, -1.0, 0.5]), *src.pick(&[0.0f32, 0.5, -0.5]), *src.pick(&[20usize, 200, 5000]), *src.pick(&[0usize, 1, 4])), ty),
+            11 => (Stage::BurstRoundTrip(*src.pick(&[1.0f32, -1.0, 0.5]), *src.pick(&[0.0f32, 0.5, -0.5]), (*src.pick(&[20usize, 200, 5000])).min(cap(4) / 2), *src.pick(&[0usize, 1, 4])), ty),
             12 => (Stage::TapSink, ty),
             _ => {
                 let l = match src.below(4) {
